@@ -25,22 +25,44 @@ fn entry_code(e: &EncodeValue) -> u64 {
     v
 }
 
-// vp: props=C15,C14; tag=C15.huff.encode.table; kind=complete; tier=quick
 // all 256 entries of the encoder's HPACK_STRING table: bit_count == RFC length, exactly ceil(bit_count/8)
-// octets, and the bits are the canonical code of that symbol.  Concrete enumeration of constant data.
-#[kani::proof]
-#[kani::unwind(257)]
-fn c15_huff_encode_table() {
+// octets, and the bits are the canonical code of that symbol.  Concrete enumeration of constant data, in four
+// quarters only to stay inside the quick-tier budget (the whole table in one harness: 110 s).
+fn encode_table_range(lo: usize, hi: usize) {
     let table = &HPACK_STRING; // a `const`: materialised once here, not once per iteration
-    let mut c = 0usize;
-    while c < 256 {
+    let mut c = lo;
+    while c < hi {
         let e = &table[c];
         assert!(e.bit_count == SPEC_HUFF_LEN[c] as u32, "C15.huff.encode.table: code length");
         assert!(e.buffer.len() as u32 == (e.bit_count + 7) / 8, "C15.huff.encode.table: octet count");
         assert!(entry_code(e) == SPEC_HUFF_CODE[c] as u64, "C15.huff.encode.table: code bits");
         c += 1;
     }
-    kani::cover!(c == 256);
+    kani::cover!(c == hi);
+}
+// vp: props=C15,C14; tag=C15.huff.encode.table; kind=complete; tier=quick
+#[kani::proof]
+#[kani::unwind(65)]
+fn c15_huff_encode_table_q0() {
+    encode_table_range(0, 64);
+}
+// vp: props=C15,C14; tag=C15.huff.encode.table; kind=complete; tier=quick
+#[kani::proof]
+#[kani::unwind(65)]
+fn c15_huff_encode_table_q1() {
+    encode_table_range(64, 128);
+}
+// vp: props=C15,C14; tag=C15.huff.encode.table; kind=complete; tier=quick
+#[kani::proof]
+#[kani::unwind(65)]
+fn c15_huff_encode_table_q2() {
+    encode_table_range(128, 192);
+}
+// vp: props=C15,C14; tag=C15.huff.encode.table; kind=complete; tier=quick
+#[kani::proof]
+#[kani::unwind(65)]
+fn c15_huff_encode_table_q3() {
+    encode_table_range(192, 256);
 }
 
 // vp: props=C15,C06; tag=C15.huff.write_bits; kind=complete; tier=quick
